@@ -1741,6 +1741,8 @@ def import_jackknife(jacks, name, idl=None):
         name of the ensemble the samples are defined on.
     """
     length = len(jacks) - 1
+    if idl is not None and len(idl[0]) != length:
+        raise ValueError('Length of idl incompatible with the number of jackknife samples.')
     prj = (np.ones((length, length)) - (length - 1) * np.identity(length))
     samples = jacks[1:] @ prj
     mean = np.mean(samples)
